@@ -3255,7 +3255,11 @@ void Analyser::AnalyserImpl::analyseModel(const ModelPtr &model)
         if (type == AnalyserEquation::Type::EXTERNAL) {
             for (const auto &unknownVariable : internalEquation->mUnknownVariables) {
                 for (const auto &dependency : unknownVariable->mDependencies) {
-                    variableDependencies.push_back(dependency);
+                    // Note: the dependency was recorded before our equations
+                    //       were checked, so make sure that we use the (final)
+                    //       primary variable of its equivalence class.
+
+                    variableDependencies.push_back(Analyser::AnalyserImpl::internalVariable(dependency)->mVariable);
                 }
             }
         } else {
